@@ -125,6 +125,9 @@ Fixpoint set_var {V} (m : genv V) (id : string) (v : V) : genv V :=
   | (k, w) :: r => if String.eqb k id then (k, v) :: r else (k, w) :: set_var r id v
   end.
 
+Definition remove_names {V} (names : list string) (m : genv V) : genv V :=
+  filter (fun p => negb (existsb (String.eqb (fst p)) names)) m.
+
 (** precedence of the look-up tables: the first table that has the name wins *)
 Fixpoint flatten (tables : list env) : env :=
   match tables with
@@ -180,6 +183,14 @@ Fixpoint bind_names (names : list string) (vs : list val) (m : env) : res env :=
   end.
 
 
+(** names stored by the loop targets, first occurrence order *)
+Fixpoint stored_names (gs : gens) (acc : list string) : list string :=
+  match gs with
+  | GNil => acc
+  | GCons names _ _ _ rest =>
+      stored_names rest (fold_left (fun a n => if existsb (String.eqb n) a then a else a ++ [n]) names acc)
+  end.
+
 Section Eval.
 Variable P : prims.
 
@@ -217,7 +228,7 @@ Fixpoint ev (i : nat) (e : expr) {struct e} : M val :=
                 end
       end
   | EOmit => ret VNone
-  | EStar _ => fail Unsupported
+  | EStar e1 => ev (S i) e1     (* only met in argument / element position, where it is unpacked *)
   | EAttr e1 a => v <- ev (S i) e1 ;; r <- lift (p_getattr P v a) ;; record i r ;;; ret r
   | ESub e1 ix => v <- ev (S i) e1 ;; s <- ev (S i + size e1) ix ;; r <- lift (p_getitem P v s) ;; record i r ;;; ret r
   | ESlice lo hi => a <- ev (S i) lo ;; b <- ev (S i + size lo) hi ;; record i (VSlice a b) ;;; ret (VSlice a b)
@@ -246,7 +257,8 @@ Fixpoint ev (i : nat) (e : expr) {struct e} : M val :=
           match run_inner (ev 0 it0) m with
           | Err x => fail x
           | Ok _ =>
-              let envs := ev_gens gs m in
+              (* the loop variables are local to the comprehension: unbound until their clause binds them *)
+              let envs := ev_gens gs m (remove_names (stored_names gs []) m) in
               match k with
               | KGen => ret (VGen (map_lazy (fun m' => run_inner (ev 0 elt) m') envs))
               | KList =>
@@ -310,11 +322,13 @@ with ev_dpairs (i : nat) (ds : dpairs) {struct ds} : M (list (val * val)) :=
   | DCons k v r =>
       kx <- ev i k ;; vx <- ev (i + size k) v ;; rest <- ev_dpairs (i + size k + size v) r ;; ret ((kx, vx) :: rest)
   end
-with ev_gens (gs : gens) (m : env) {struct gs} : list (env + err) :=
+with ev_gens (gs : gens) (m_iter m : env) {struct gs} : list (env + err) :=
+  (* [m_iter]: where the iterable of the first clause is evaluated (the enclosing scope for the
+     outermost clause); [m]: the comprehension's own scope *)
   match gs with
   | GNil => [inl m]
   | GCons names tup it ifs rest =>
-      match run_inner (ev 0 it) m with
+      match run_inner (ev 0 it) m_iter with
       | Err x => [inr x]
       | Ok itv =>
           match p_iter P itv with
@@ -331,7 +345,7 @@ with ev_gens (gs : gens) (m : env) {struct gs} : list (env + err) :=
                          match run_inner (ev_ifs ifs) m' with
                          | Err x' => [inr x']
                          | Ok false => loop xs'
-                         | Ok true => app_lazy (ev_gens rest m') (loop xs')
+                         | Ok true => app_lazy (ev_gens rest m' m') (loop xs')
                          end
                      end
                  end) items
@@ -347,14 +361,6 @@ with ev_ifs (es : exprs) {struct es} : M bool :=
 (** the value of a comprehension under a mapping, as [_execute_comprehension] obtains it by
     compiling the node into a function of the mapping's names: Python's own evaluation *)
 Definition comp_value (e : expr) (m : env) : res val := run_inner (ev 0 e) m.
-
-(** names stored by the loop targets, first occurrence order *)
-Fixpoint stored_names (gs : gens) (acc : list string) : list string :=
-  match gs with
-  | GNil => acc
-  | GCons names _ _ _ rest =>
-      stored_names rest (fold_left (fun a n => if existsb (String.eqb n) a then a else a ++ [n]) names acc)
-  end.
 
 (** the tracing function generated for a failing [all(<generator>)]: nested loops, the first
     assignment of the loop variables for which the element is falsy *)
@@ -409,7 +415,7 @@ Fixpoint rc (i : nat) (e : expr) {struct e} : R rval :=
                 end
       end
   | EOmit => ret (Some VNone)
-  | EStar _ => fail Unsupported
+  | EStar e1 => rc (S i) e1
   | EAttr e1 a =>
       x <- rc (S i) e1 ;;
       match x with
@@ -461,7 +467,7 @@ Fixpoint rc (i : nat) (e : expr) {struct e} : R rval :=
                           match down m with
                           | None => fail Unsupported
                           | Some m' =>
-                              ff <- lift (first_failing elt (stored_names gs []) (ev_gens gs m')) ;;
+                              ff <- lift (first_failing elt (stored_names gs []) (ev_gens gs m' (remove_names (stored_names gs []) m'))) ;;
                               match ff with
                               | Some (x', inputs) => record i (VAllFail x' inputs) ;;; ret (Some r)
                               | None => fail Unsupported   (* "Expected the unhappy path here" *)
